@@ -54,6 +54,10 @@ def nat? (w : String) (bound : Nat) : Option Nat := do
 /-- one callback action: `I` free token I · `aO` alloc object O · `c` clear · `uI.O` update token I -/
 def parseAct (w : String) (toks : Array Token) : Option CbAct :=
   if w == "c" then some .clear
+  -- calls from inside a callback that leave the cabinet as it is: `n` a nested foreach (counting), `s` size()/at(),
+  -- `rN` reserve(N) (may move the cells; the cabinet model has no capacity) — a no-op in the model: update of the null token
+  else if w == "n" ∨ w == "s" then some (.update {} 0)
+  else if w.startsWith "r" then do let _ ← nat? (w.drop 1).toString 100000; pure (.update {} 0)
   else if w.startsWith "a" then do pure (.alloc (← nat? (w.drop 1).toString maxObj))
   else if w.startsWith "u" then
     match (w.drop 1).toString.splitOn "." with
@@ -85,7 +89,7 @@ def lookupTag (c : CabA) (t : Token) : String :=
   | none => "tok-out-of-range"
   | some cell => if cell.id = t.id then "tok-live" else if cell.id = 0 then "tok-stale-freecell" else "tok-stale-reused"
 
-def cabLine (s : St) (ws : List String) : Option (St × List String) :=
+partial def cabLine (s : St) (ws : List String) : Option (St × List String) :=
   match ws with
   | ["alloc", o] => do
       let o ← nat? o maxObj
@@ -99,6 +103,19 @@ def cabLine (s : St) (ws : List String) : Option (St × List String) :=
           let d := match dup with | some j => "dup=" ++ toString j | none => "fresh"
           pure ({ s with cab := c, toks := s.toks.push t },
                 ["B " ++ tag, "P alloc " ++ d ++ " " ++ sizeStr c, "M tok " ++ toString t.id ++ " " ++ toString t.pos])
+  | ["allocfail", o] => do
+      -- the next `operator new` fails: with a free cell no allocation is attempted and the call succeeds
+      let o' ← nat? o maxObj
+      if s.cab.firstFree ≠ sizeMax then
+        let r ← cabLine s ["alloc", o]
+        pure (r.1, r.2.map fun l => if l.startsWith "B " then l ++ " allocfail-no-growth" else l)
+      else
+        -- g++ evaluates `allocPos()` before `allocId()`: the id counter is not advanced (M line; either order is
+        -- covered by C08_cab_alloc_bad_alloc)
+        let c := (s.cab.toCab.allocThrow false)
+        let _ := o'
+        pure ({ s with cab := CabA.ofCab c, toks := s.toks.push {} },
+              ["B allocfail-throw", "P alloc bad_alloc " ++ sizeStr s.cab, "M lastid=" ++ toString c.lastId])
   | ["at", i] => do
       let t := s.toks[← nat? i s.toks.size]?.getD {}
       pure (s, ["B " ++ lookupTag s.cab t, "P at=" ++ toString (s.cab.at' t)])
@@ -109,7 +126,9 @@ def cabLine (s : St) (ws : List String) : Option (St × List String) :=
   | ["jump", v] => do
       let v ← u64? v
       if v < s.cab.lastId then none
-      pure ({ s with cab := s.cab.jump v }, ["B jump" ++ (if v + 3 ≥ sizeMax then "-near-max" else ""), "P ok"])
+      let near (b : Nat) : Bool := v + 4 ≥ b ∧ v < b
+      pure ({ s with cab := s.cab.jump v }, ["B jump" ++ (if v + 3 ≥ sizeMax then "-near-max" else if near (2 ^ 32) then "-near-2^32"
+        else if near (2 ^ 31) then "-near-2^31" else if near (2 ^ 63) then "-near-2^63" else if near (2 ^ 16) then "-near-2^16" else ""), "P ok"])
   | ["bulk", "alloc", n, o0] => do
       let n ← nat? n (maxBulk + 1)
       let o0 ← nat? o0 maxObj
@@ -184,6 +203,7 @@ def cabLine (s : St) (ws : List String) : Option (St × List String) :=
       let tags := (if c.count < s.cab.count then ["each-removed"] else ["each-plain"]) ++
         (if ps.any (fun p => match p.2 with | .alloc _ => true | _ => false) then ["each-cb-alloc"] else []) ++
         (if ps.any (fun p => p.2 == .clear) then ["each-cb-clear"] else []) ++
+        (if ps.any (fun p => p.2 == .update {} 0) then ["each-cb-reentrant-read"] else []) ++
         (if c.cells.length > c0.cells.length then ["each-cb-grew"] else [])
       pure ({ s with cab := CabA.ofCab c, toks := s.toks ++ newToks.toArray },
             ["B " ++ " ".intercalate tags,
@@ -245,7 +265,8 @@ def poolStatus (s : PoolSys) : String :=
   let vals := s.slots.map fun o => match o with | none => "-" | some (_, v) => toString v
   let st := s.pool.stat
   "P pool ctor=" ++ toString s.pool.ctor ++ " dtor=" ++ toString s.pool.dtor ++ " vals=" ++ ",".intercalate vals ++
-  " stat=" ++ toString st.allocT ++ "/" ++ toString st.freeT ++ "/" ++ toString st.peakA ++ "/" ++ toString st.peakF ++ " alias=0 leaked=" ++ toString s.pool.leaked
+  " stat=" ++ toString st.allocT ++ "/" ++ toString st.freeT ++ "/" ++ toString st.peakA ++ "/" ++ toString st.peakF ++ " alias=0 leaked=" ++ toString s.pool.leaked ++
+  " thrown=" ++ toString s.pool.thrown
 
 /-- `A h v` … `a` = an alloc whose constructor makes the calls in between; `F h` … `f` = a free whose
 destructor does; must be well nested, depth ≤ 16 -/
@@ -311,6 +332,15 @@ def poolLine (s : St) (ws : List String) : Option (St × List String) :=
           let (p, tags) := runEvsTags s.pool [.abeg h v, .aend]
           pure ({ s with pool := p }, ["B " ++ " ".intercalate tags, poolStatus p])
       | _ => pure (s, ["B pool-busy", "P busy"])
+  | ["allocthrow", h, v] => do
+      -- `alloc(v)` whose constructor throws (between calls only)
+      let h ← nat? h nPoolSlots
+      let v ← nat? v maxVal
+      match s.pool.slots[h]? with
+      | some none =>
+          let p := s.pool.step (.athrow h v)
+          pure ({ s with pool := p }, ["B pool-ctor-throw-" ++ (if s.pool.pool.parked.isEmpty then "malloc" else "parked"), poolStatus p])
+      | _ => pure (s, ["B pool-busy", "P busy"])
   | ["free", h] => do
       let h ← nat? h nPoolSlots
       match s.pool.slots[h]? with
@@ -324,11 +354,11 @@ def poolLine (s : St) (ws : List String) : Option (St × List String) :=
       let (p, tags) := runEvsTags s.pool evs
       pure ({ s with pool := p }, ["B pool-x " ++ " ".intercalate tags, poolStatus p])
   | ["new", k] => do
-      let k ← if k == "max" then some sizeMax else nat? k 100000
+      let k ← if k == "max" then some sizeMax else u64? k
       let p := s.pool.step (.renew k)
-      pure ({ s with pool := p }, ["B pool-new", poolStatus p])
+      pure ({ s with pool := p }, ["B pool-new" ++ (if k ≥ 2 ^ 31 ∧ k < sizeMax then " pool-keep>=2^31" else ""), poolStatus p])
   | ["drop", k] => do
-      let k ← if k == "max" then some sizeMax else nat? k 100000
+      let k ← if k == "max" then some sizeMax else u64? k
       let p := s.pool.step (.drop k)
       pure ({ s with pool := p }, [if s.pool.liveBlocks.isEmpty then "B pool-drop-empty" else "B pool-drop-live", poolStatus p])
   | ["stat"] => some (s, [poolStatus s.pool])
@@ -354,7 +384,16 @@ def poolLine (s : St) (ws : List String) : Option (St × List String) :=
                 line "a" r.1 n (dups blocks), line "f" p2 0 0, line "b" r3.1 m (dups r3.2), line "e" p4 0 0])
   | _ => none
 
-def fdStatus (old s : FdSys) : List String :=
+def fdLabel (fd : Int) : String := toString fd
+
+def sysStr : Sys → String
+  | .getfl f => "getfl:" ++ fdLabel f
+  | .setfl f b => "setfl:" ++ fdLabel f ++ ":" ++ bit b
+  | .getfd f => "getfd:" ++ fdLabel f
+  | .setfd f b => "setfd:" ++ fdLabel f ++ ":" ++ bit b
+  | .rw k f => (match k with | 0 => "read:" | 1 => "readv:" | 2 => "write:" | _ => "writev:") ++ fdLabel f
+
+def fdStatus (old s : FdSys) (calls : List Sys) : List String :=
   let hs := List.range nFdSlots
   let g := hs.map fun h => toString (s.get h)
   let nl := String.join (hs.map fun h => bit (s.isNull h))
@@ -363,10 +402,21 @@ def fdStatus (old s : FdSys) : List String :=
   let refs := hs.map fun h => match s.detailOf h with
     | none => "-"
     | some d => match s.details[d]? with | none => "?" | some det => toString det.ref
-  ["P fd g=" ++ ",".intercalate g ++ " null=" ++ nl ++ " closed=" ++ commaList closed ++ " open=" ++ commaList (op.map toString),
-   "M ref=" ++ ",".intercalate refs]
+  -- kernel flags of the open descriptors that differ from the state after open: label:<O_NONBLOCK><FD_CLOEXEC>
+  let fl := op.filterMap fun r => match s.flags[r]? with
+    | some (nb, cx) => if nb || cx then some (toString r ++ ":" ++ bit nb ++ bit cx) else none
+    | none => some (toString r ++ ":??")
+  ["P fd g=" ++ ",".intercalate g ++ " null=" ++ nl ++ " closed=" ++ commaList closed ++ " open=" ++ commaList (op.map toString) ++
+     " fl=" ++ commaList fl ++ " stale=0",
+   "M ref=" ++ ",".intercalate refs,
+   "M sys=" ++ commaList (calls.map sysStr)]
 
 def fdTag (s : FdSys) (op : FdOp) : String :=
+  -- what the kernel-facing members find: no record, a record closed through some copy (shared or not), an open descriptor
+  let tgt (h : Nat) : String := match s.target h with
+    | none => "empty"
+    | some fd => if fd < 0 then (if (s.handles.count (s.detailOf h)) > 1 then "closed-shared" else "closed") else
+        (if (s.handles.count (s.detailOf h)) > 1 then "open-shared" else "open")
   let relTag (h : Nat) : String :=
     match s.detailOf h with
     | none => "rel-null"
@@ -390,6 +440,13 @@ def fdTag (s : FdSys) (op : FdOp) : String :=
       | some d => match s.details[d]? with
           | none => "close-?"
           | some det => if det.fd < 0 then "close-again" else if det.ref > 1 then "close-shared" else "close-sole"
+  | .openFile h ok => (if ok then "fopen-ok-" else "fopen-fail-") ++ relTag h
+  | .io h _ a => "io-" ++ tgt h ++ (if a < 0 then "-err" else if a = 0 then "-zero" else "")
+  | .setNonBlock h en => "setnb-" ++ tgt h ++ (match (s.target h).bind s.kFlags with
+      | some (nb, _) => if nb = en then "-nochange" else "-change" | none => "")
+  | .isNonBlock h => "isnb-" ++ tgt h
+  | .setCloexec h => "cloexec-" ++ tgt h ++ (match (s.target h).bind s.kFlags with
+      | some (nb, cx) => (if cx then "-already" else "-set") ++ (if nb then "-on-nonblocking" else "") | none => "")
 
 def parseFd (ws : List String) : Option FdOp :=
   let sl (w : String) := nat? w nFdSlots
@@ -407,16 +464,39 @@ def parseFd (ws : List String) : Option FdOp :=
   | ["swap", a, b] => do pure (.swap (← sl a) (← sl b))
   | ["reset", h] => do pure (.reset (← sl h))
   | ["close", h] => do pure (.close (← sl h))
+  | ["fopen", h, "ok"] => do pure (.openFile (← sl h) true)
+  | ["fopen", h, "enoent"] => do pure (.openFile (← sl h) false)
+  | ["fopen", h, "emfile"] => do pure (.openFile (← sl h) false)
+  | ["io", h, kind, ans] => do
+      let k ← match kind with | "read" => some 0 | "readv" => some 1 | "write" => some 2 | "writev" => some 3 | _ => none
+      let a : Int ← if ans ∈ ["eintr", "eagain", "eio", "epipe", "enospc"] then some (-1) else (nat? ans 100000).map Int.ofNat
+      pure (.io (← sl h) k a)
+  | ["nonblock", h, "1"] => do pure (.setNonBlock (← sl h) true)
+  | ["nonblock", h, "0"] => do pure (.setNonBlock (← sl h) false)
+  | ["isnb", h] => do pure (.isNonBlock (← sl h))
+  | ["cloexec", h] => do pure (.setCloexec (← sl h))
   | _ => none
 
 def fdLine (s : St) (ws : List String) : Option (St × List String) := do
+  -- fault schedule for `::close`: the next n calls really close and then report EINTR / EIO.  The code
+  -- discards the result of `::close` (fd.cpp:58,98), so the model's step does not depend on it
+  match ws with
+  | ["closefail", n, e] =>
+      let _ ← nat? n 100
+      if e != "eintr" ∧ e != "eio" then none
+      return (s, ["B closefail", "P ok"])
+  | _ => pure ()
   let op ← parseFd ws
   if ¬ op.ok then none
   -- at most 200 descriptors per case (the harness holds real descriptors)
-  let tooMany : Bool := match op with | .opn _ _ => decide (s.fd.nextRes ≥ 200) | _ => false
+  let tooMany : Bool := match op with | .opn _ _ | .openFile _ true => decide (s.fd.nextRes ≥ 200) | _ => false
   if tooMany then none
   let f := s.fd.step op
-  pure ({ s with fd := f }, ("B " ++ fdTag s.fd op) :: fdStatus s.fd f)
+  let ret : List String := match op with
+    | .io h k a => ["P ret=" ++ toString (s.fd.io h k a).1]
+    | .isNonBlock h => ["P ret=" ++ bit (s.fd.isNonBlock h).1]
+    | _ => []
+  pure ({ s with fd := f }, ("B " ++ fdTag s.fd op) :: ret ++ fdStatus s.fd f (s.fd.calls op))
 
 def parseLt (ws : List String) : Option LtOp :=
   let t (w : String) := nat? w nLtTags
